@@ -55,6 +55,39 @@ theorem c15_generated_set_works (ca : Nat) :
     handshake ca ca (.signedBy ca "localhost") (.signedBy ca "localhost") = true := by
   rw [c15_policy]; simp [chainsTo, nameOf]
 
+/-- What the bundled generator makes (regenerated from `tools/src/commands/gen_certs`): entity certificates carry the
+    name the client asks for, the usages of their roles, are signed by the generated CA, which is a CA; the validity is
+    five days either side of now, or the library's 1975–4096 with `--no-expiry`. -/
+theorem generator_facts : genEntitySan = serverName ∧ genServerEku = .serverAuth ∧ genClientEku = .clientAuth ∧
+    genCaIsCa = true ∧ genEntityIsCa = false ∧ genEntitySignedByCa = true ∧ genValiditySymmetric = true ∧
+    genNoExpirySkipsValidity = true ∧ genSecondsInDay = 86400 ∧ genCaValidityDays = 5 ∧ genEntityValidityDays = 5 := by
+  decide
+
+/-- "The certificate set produced by the bundled generator satisfies both directions for localhost": for either
+    setting of `--no-expiry` and any moment between 1980 and 4000, a client and a server that each present the
+    generated certificate of their role and trust the generated CA complete the handshake. (A back-dated start that
+    fell before 1970, or a validity that did not contain now, would make `presented` unusable.) -/
+theorem c15_generator_set_works_both_ways (ca : Nat) (noExpiry : Bool) (now : Int)
+    (h1 : 315532800 ≤ now) (h2 : now ≤ 64060588800) :
+    handshake ca ca
+      (presented now genClientEku (genCa ca noExpiry now) (genEntity ca genClientEku noExpiry now))
+      (presented now genServerEku (genCa ca noExpiry now) (genEntity ca genServerEku noExpiry now)) = true := by
+  obtain ⟨hsan, hse, hce, hca, hen, hsig, hsym, hskip, hsec, hcd, hed⟩ := generator_facts
+  have hname : serverName = "localhost" := config_is_mutual.2.2.2.2
+  rw [c15_policy]
+  have hA : (432000 ≤ now ∧ now - 432000 ≤ now) ∧ now ≤ now + 432000 := by omega
+  have hB : (157766400 ≤ now) ∧ now ≤ 67090118400 := by omega
+  cases noExpiry <;>
+    simp [presented, validAt, genCa, genEntity, validity, hca, hen, hsig, hsym, hskip, hsec, hcd, hed, hse, hce,
+      chainsTo, nameOf, hsan, hname, rcgenNotBefore, rcgenNotAfter, hA, hB]
+
+/-- The defect this guards against, for the record: a validity of a hundred years either side of 2026 starts in 1926,
+    before anything webpki can represent: such a certificate is unusable in both directions. -/
+theorem c15_start_before_1970_is_unusable :
+    validAt 1790000000 { issuer := 0, isCa := false, san := some "localhost", eku := some .serverAuth,
+                          notBefore := 1790000000 - 36500 * 86400, notAfter := 1790000000 + 36500 * 86400 } = false := by
+  decide
+
 /-- the full table of the property's quantifier: client {trusted, other CA, self-signed, none} x server
     {trusted, other CA}; CA 0 is the configured one, CA 1 another -/
 example : [Identity.signedBy 0 "localhost", .signedBy 1 "localhost", .selfSigned, .absent].map
@@ -67,3 +100,6 @@ end Selium.Tls
 #print axioms Selium.Tls.c15_policy
 #print axioms Selium.Tls.c15_untrusted_refused
 #print axioms Selium.Tls.c15_generated_set_works
+#print axioms Selium.Tls.generator_facts
+#print axioms Selium.Tls.c15_generator_set_works_both_ways
+#print axioms Selium.Tls.c15_start_before_1970_is_unusable
